@@ -484,7 +484,7 @@ def _mentions(t, name):
     return False
 
 
-def _break_required_cycles(schema):
+def _break_required_cycles(schema, through_nullable=False):
     """a required chain of struct references that loops admits no finite document: make the
     back edges optional."""
     defs = {d["name"]: d["t"] for d in schema["defs"]}
@@ -495,7 +495,7 @@ def _break_required_cycles(schema):
             acc.append(t)
         elif k == "struct":
             for f in t["fields"]:
-                if f["req"] and not f.get("null"):
+                if f["req"] and (through_nullable or not f.get("null")):
                     req_refs(f["t"], acc)
         elif k == "dunion":
             for n in t["of"]:
@@ -512,7 +512,7 @@ def _break_required_cycles(schema):
                 visit(r["name"], stack + [name])
             return
         for f in t["fields"]:
-            if not f["req"] or f.get("null"):
+            if not f["req"] or (f.get("null") and not through_nullable):
                 continue
             acc = []
             req_refs(f["t"], acc)
@@ -539,6 +539,8 @@ def project(schema, fmt):
       cue        : everything expressible; int enums need member names (cog attribute)"""
     import copy
     s = copy.deepcopy(schema)
+    if fmt == "cue":
+        _break_required_cycles(s, through_nullable=True)   # `a: {x: #Root} | null` is a structural cycle in CUE
 
     def fix(t):
         k = t["k"]
@@ -558,7 +560,12 @@ def project(schema, fmt):
             elif fmt == "cue" and t["w"] == "float32" and any(b in t for b in ("ge", "gt", "le", "lt")):
                 # cog's CUE front-end cannot infer the type of a bounded float32 (it answers with an error)
                 t["w"] = "float64"
+        elif k == "const":
+            if fmt == "openapi" and isinstance(t["v"], bool):
+                t["v"] = "yes" if t["v"] else "no"     # cog's OpenAPI front-end refuses boolean enums
         elif k in ("array", "map"):
+            if fmt == "cue" and t["of"]["k"] == "enum" and not isinstance(t["of"]["vals"][0], str):
+                t["of"] = {"k": "int", "w": "int64"}
             fix(t["of"])
         elif k == "struct":
             for f in t["fields"]:
@@ -716,6 +723,8 @@ def _cue_type(t, ind):
         return "bool"
     if k in ("int", "float"):
         base = t["w"]
+        if k == "float" and base == "float64" and any(b in t for b in ("ge", "gt", "le", "lt")):
+            base = "float"      # `float64 & >a & <b` loses its type name when CUE simplifies it; cog then errors
         parts = [base]
         for b, op in (("ge", ">="), ("gt", ">"), ("le", "<="), ("lt", "<")):
             if b in t:
@@ -723,7 +732,7 @@ def _cue_type(t, ind):
                 s = _cue_num(v)
                 if k == "float" and "." not in s:
                     s += ".0"
-                parts.append(op + s)
+                parts.append(op + (" " if s.startswith("-") else "") + s)
         return " & ".join(parts)
     if k == "string":
         parts = ["string"]
@@ -740,10 +749,8 @@ def _cue_type(t, ind):
         v = t["v"]
         return "true" if v is True else "false" if v is False else json.dumps(v)
     if k == "enum":
-        if isinstance(t["vals"][0], str):
-            return " | ".join(json.dumps(v) for v in t["vals"])
-        return " | ".join(str(v) for v in t["vals"]) + ' @cog(kind="enum",memberNames="%s")' % "|".join(
-            "N%d" % v for v in t["vals"])
+        # int enums need the memberNames attribute, which only a field can carry: see _cue_attr
+        return " | ".join(json.dumps(v) for v in t["vals"])
     if k == "array":
         inner = _cue_type(t["of"], ind)
         return "[...%s]" % (inner if " | " not in inner and " & " not in inner else "(" + inner + ")")
@@ -755,10 +762,7 @@ def _cue_type(t, ind):
         lines = []
         for f in t["fields"]:
             ft = _cue_type(f["t"], ind + 1)
-            attr = ""
-            if " @cog(" in ft:
-                ft, attr = ft.split(" @cog(", 1)
-                attr = " @cog(" + attr
+            attr = _cue_attr(f["t"])
             if f.get("null"):
                 ft = "(" + ft + ") | null" if (" | " in ft or " & " in ft) else ft + " | null"
             lines.append("%s\t%s%s: %s%s" % (pad, f["name"], "" if f["req"] else "?", ft, attr))
@@ -770,12 +774,18 @@ def _cue_type(t, ind):
     raise ValueError(k)
 
 
+def _cue_attr(t):
+    if t["k"] == "enum" and not isinstance(t["vals"][0], str):
+        return ' @cog(kind="enum",memberNames="%s")' % "|".join("N%d" % v for v in t["vals"])
+    return ""
+
+
 def render_cue(schema, closed=False):
     body = []
     text = ""
     for d in schema["defs"]:
         ct = _cue_type(d["t"], 0)
-        body.append("#%s: %s\n" % (d["name"], ct))
+        body.append("#%s: %s%s\n" % (d["name"], ct, _cue_attr(d["t"])))
     text = "\n".join(body)
     imports = []
     if "strings." in text:
@@ -818,6 +828,8 @@ class DocGen:
             hi = min(hi, t["le"])
         if "lt" in t:
             hi = min(hi, t["lt"] - 1)
+        # integers stay exactly representable in a float64 (they may travel through a Go `any`)
+        lo, hi = max(lo, -2 ** 53), min(hi, 2 ** 53)
         if lo > hi:
             return lo
         c = r.random()
@@ -1205,6 +1217,41 @@ def _json_same(a, b):
 
 def json_same(a, b):
     return _json_same(a, b)
+
+
+def stress_doc(rng, doc, p=0.25):
+    """type-agnostic perturbations that exercise encoding/json corner cases (the result is usually NOT
+    valid for the schema): a key renamed to a case variant, a scalar member duplicated with another
+    value (DupObj), an array element replaced by null, an integer written as n.0, a null member added."""
+    def walk(d):
+        if isinstance(d, dict):
+            items = [(k, walk(v)) for k, v in d.items()]
+            if items and rng.random() < p:
+                i = rng.randrange(len(items))
+                k, v = items[i]
+                c = rng.random()
+                if c < 0.35 and k:
+                    nk = rng.choice([k.upper(), k[0].upper() + k[1:], k.lower(), k.swapcase()])
+                    items[i] = (nk, v)
+                elif c < 0.7 and not isinstance(v, (dict, list, DupObj)):
+                    other = rng.choice([v, None, 0, "dup", True])
+                    pair = [(k, other), (k, v)] if rng.random() < 0.5 else [(k, v), (k, other)]
+                    if rng.random() < 0.3 and k:
+                        pair[0] = (k.upper(), pair[0][1])
+                    items[i:i + 1] = pair
+                else:
+                    items.append((k + "x", None))
+            keys = [k for k, _ in items]
+            return dict(items) if len(set(keys)) == len(keys) else DupObj(items)
+        if isinstance(d, list):
+            out = [walk(x) for x in d]
+            if out and rng.random() < p:
+                out[rng.randrange(len(out))] = None
+            return out
+        if isinstance(d, int) and not isinstance(d, bool) and rng.random() < p / 2 and abs(d) < 10 ** 12:
+            return Decimal(str(d) + ".0")
+        return d
+    return walk(doc)
 
 
 # ------------------------------------------------------------------ coverage bookkeeping
